@@ -292,3 +292,20 @@ pub fn pos_dedup_blind(v: &mut Vec<BlindTerm>) {
 pub fn neg_sort_blind(v: &mut Vec<BlindTerm>) {
     v.sort_by(|a, b| a.0.len().cmp(&b.0.len()));
 }
+
+// ---------------------------------------------------------------- R15.8 io::Write::write with the byte count ignored
+pub fn pos_partial_write<W: std::io::Write>(w: &mut W, txt: &str) -> std::io::Result<()> {
+    w.write(txt.as_bytes())?;
+    Ok(())
+}
+pub fn neg_write_all<W: std::io::Write>(w: &mut W, txt: &str) -> std::io::Result<()> {
+    w.write_all(txt.as_bytes())
+}
+pub fn neg_write_loop<W: std::io::Write>(w: &mut W, txt: &str) -> std::io::Result<()> {
+    let mut rest = txt.as_bytes();
+    while !rest.is_empty() {
+        let n = w.write(rest)?;
+        rest = &rest[n..];
+    }
+    Ok(())
+}
